@@ -174,3 +174,19 @@ Proof. exact (proj1 (run_fire_ok P s e now acts)). Qed.
 
 Theorem run_wakeups_sorted P s e now acts : Sorted_w (wakeups (run_at P s e now acts)).
 Proof. exact (proj2 (run_fire_ok P s e now acts)). Qed.
+
+(* ---------- nothing that is due is left behind when the loop blocks ---------- *)
+From WF Require Proofs.RunnerConserve.
+
+Theorem run_no_due_wakeup_left_behind P s e now acts :
+  Runner.outcome (run_at P s e now acts) = ORunning ->
+  Forall (fun w => clock (run_at P s e now acts) < wtime w) (wakeups (run_at P s e now acts)).
+Proof.
+  intros O. pose proof (RunnerConserve.run_blocks_only_when_quiescent P s e now acts O) as [_ [_ [_ [_ Q]]]].
+  pose proof (run_wakeups_sorted P s e now acts) as S.
+  destruct (due (clock (run_at P s e now acts)) (wakeups (run_at P s e now acts))) as [d rest] eqn:Du.
+  cbn [fst] in Q. subst d.
+  destruct (due_spec _ _ _ _ Du) as [pre [E1 [E2 _]]].
+  destruct pre; [|discriminate E2]. cbn [app] in E1.
+  destruct (due_future _ _ _ _ S Du) as [_ Fu]. rewrite E1. exact Fu.
+Qed.
